@@ -471,9 +471,12 @@ pub fn run(op: &str, e: &Value, ctx: &mut Ctx) -> Result<Value, String> {
                 sigs.truncate(l[1].as_u64().unwrap_or(0) as usize);
                 keys.truncate(l[2].as_u64().unwrap_or(0) as usize);
             }
+            let _ = ed25519_dalek::verif::take_batch_coefficients();
             let r1 = ed25519_dalek::verify_batch(&mrefs, &sigs, &keys).is_ok();
+            let z1 = ed25519_dalek::verif::take_batch_coefficients();
             let r2 = ed25519_dalek::verify_batch(&mrefs, &sigs, &keys).is_ok();
-            Ok(json!({"key_ok": true, "ok": r1, "again": r2}))
+            let z2 = ed25519_dalek::verif::take_batch_coefficients();
+            Ok(json!({"key_ok": true, "ok": r1, "again": r2, "zs": z1.iter().map(|z| jbytes(z)).collect::<Vec<_>>(), "zs_again": z2.iter().map(|z| jbytes(z)).collect::<Vec<_>>()}))
         }
         _ => Err(format!("unknown op {op}")),
     }
